@@ -34,6 +34,10 @@ fn scenarios(tier: Tier) -> Vec<Scenario> {
 		Scenario { name: "header-reorg", universe: "forks", prelude: vec!["B(m1)", "B(m2)", "B(m3)", "B(m4)", "B(m5)", "B(m6)"], op: vec!["H(f5)", "H(f6)", "H(f7)"] },
 		Scenario { name: "header-batch-reorg", universe: "forks", prelude: vec!["B(m1)", "B(m2)", "B(m3)", "B(m4)", "B(m5)", "B(m6)"], op: vec!["HS(..f7)"] },
 		Scenario { name: "compact", universe: "long", prelude: vec!["*main"], op: vec!["compact"] },
+		// the same plain steps where headers are version 5 (output root merged with the bitmap root):
+		// a coinbase-only extension and one with a spend
+		Scenario { name: "extend-plain-v5", universe: "long", prelude: vec!["*upto:x20"], op: vec!["B(x21)"] },
+		Scenario { name: "extend-spend-v5", universe: "long", prelude: vec!["*upto:x11"], op: vec!["B(x12)"] },
 	];
 	if tier == Tier::Thorough {
 		v.push(Scenario { name: "compact-then-block", universe: "long", prelude: vec!["*main"], op: vec!["compact", "B(x91)"] });
@@ -116,6 +120,17 @@ pub fn parse_events(tree: &Tree, names: &[&str]) -> Vec<Ev> {
 			for (i, b) in tree.blocks.iter().enumerate() {
 				if b.name.starts_with('x') && b.name != "x91" {
 					out.push(Ev::B(i));
+				}
+			}
+			continue;
+		}
+		if let Some(last) = s.strip_prefix("*upto:") {
+			for (i, b) in tree.blocks.iter().enumerate() {
+				if b.name.starts_with('x') {
+					out.push(Ev::B(i));
+				}
+				if b.name == last {
+					break;
 				}
 			}
 			continue;
@@ -527,7 +542,7 @@ impl Engine for C09 {
 	fn meta(&self, _tier: Tier) -> Meta {
 		Meta {
 			level: "fault_enumeration",
-			rule: "for each scenario (plain extension, fork block, reorg with spends, header-by-header reorg, header-batch reorg, compaction; thorough adds compaction+block, first start, reorg after compaction) a counting run records every crash point (hook calls at every file flush step, temp-file rename, file replace, LMDB commit, and between the backend syncs of an extension) the interrupted operation executes; then for EVERY crash point n a child process is killed (abort, no destructors) at it and a second process reopens the directory: Chain::init must be Ok, the head an allowed block, validate(false) Ok, the unspent set equal to the reference replay, and after re-delivering the interrupted input the best-chain fingerprint must equal that of an uninterrupted twin. One case = one (scenario, crash point); all distinct.",
+			rule: "for each scenario (plain extension, fork block, reorg with spends, header-by-header reorg, header-batch reorg, compaction, coinbase-only and spending extension under version-5 headers; thorough adds compaction+block, first start, reorg after compaction, restart of a consistent node (plain / compacted), orphan cascade, bodies of a fork whose headers are already known, and for every crash point that recovers a SECOND kill at every crash point of the restart) a counting run records every crash point (hook calls at every file flush step, temp-file rename, file replace, LMDB commit, and between the backend syncs of an extension) the interrupted operation executes; then for EVERY crash point n a child process is killed (abort, no destructors) at it and a second process reopens the directory: Chain::init must be Ok, the head an allowed block, validate(false) Ok, the unspent set equal to the reference replay, and after re-delivering the interrupted input the best-chain fingerprint must equal that of an uninterrupted twin. One case = one (scenario, crash point); all distinct.",
 			assumptions: vec![
 				"kill = process death (page cache survives); power-loss reordering of unsynced pages is outside the property".into(),
 				"crash points are the hook call sites listed in MANIFEST.hooks / DESIGN §3 (every durable step of store/src/{types,lib,pmmr,lmdb}.rs and the sync sequence of txhashset extending/header_extending)".into(),
